@@ -78,7 +78,12 @@ func (e *SpecEnv) lookupPkg(name string) *types.Package {
 		}
 	}
 	for _, p := range e.fc.eng.prog.AllPackages() {
-		if p.Pkg.Name() == name && (strings.HasPrefix(p.Pkg.Path(), modPrefix) || !strings.Contains(p.Pkg.Path(), ".")) {
+		if p.Pkg.Name() == name && strings.HasPrefix(p.Pkg.Path(), modPrefix) {
+			return p.Pkg
+		}
+	}
+	for _, p := range e.fc.eng.prog.AllPackages() {
+		if p.Pkg.Name() == name && !strings.Contains(p.Pkg.Path(), ".") {
 			return p.Pkg
 		}
 	}
@@ -581,7 +586,11 @@ func (e *SpecEnv) evalBinary(x *EBinary) SV {
 			if sa != sb {
 				e.fail("comparison of different sorts %s vs %s in %s", sa, sb, exprString(x))
 			}
-			t = eq(a.t, b.t)
+			if isMathInt(a.typ) || isNilType(a.typ) {
+				t = eq(a.t, b.t)
+			} else {
+				t = tc.deepEq(a.t, b.t, a.typ)
+			}
 		}
 		if x.Op == "!=" {
 			t = not(t)
@@ -896,6 +905,11 @@ func (e *SpecEnv) applySpecFn(sf *SpecFn, argExprs []Expr) SV {
 }
 
 func (e *SpecEnv) lookupPkgPath(short string) *types.Package {
+	for _, p := range e.fc.eng.prog.AllPackages() {
+		if p.Pkg.Path() == modPrefix+short {
+			return p.Pkg
+		}
+	}
 	for _, p := range e.fc.eng.prog.AllPackages() {
 		if shortType(p.Pkg.Path()) == short {
 			return p.Pkg
